@@ -60,6 +60,16 @@ type GuardSpec struct {
 	Fields []string
 	Mu     string
 	RW     bool
+	Also   string // ghost bool: readers need mu or Also, writers need both
+	Read, Write       *Expr
+	ReadSrc, WriteSrc string
+	Pkg               string
+}
+
+type LockSet struct {
+	Type  string
+	Mu    string
+	Ghost string
 }
 
 type SpecFunc struct {
@@ -89,6 +99,7 @@ type GhostVar struct {
 type SpecDB struct {
 	Funcs     map[string]*FuncSpec
 	Guards    []*GuardSpec
+	LockSets  []*LockSet
 	SpecFuncs map[string]*SpecFunc
 	Axioms    []*Axiom
 	Ghosts    map[string]*GhostVar
@@ -126,11 +137,16 @@ func (db *SpecDB) LoadFile(path string, pkgPath string, trusted bool) error {
 		case "func":
 			name := strings.TrimSpace(rest)
 			name = qualifyFuncName(name, pkgPath)
-			cur = &FuncSpec{Name: name, Pkg: pkgPath, Attrs: map[string]bool{}, Trusted: trusted, File: path, Line: ln}
 			if old, ok := db.Funcs[name]; ok {
-				return fail(fmt.Errorf("duplicate contract for %s (first at %s:%d)", name, old.File, old.Line))
+				// blocks for the same function in several files are merged
+				if old.Trusted != trusted {
+					return fail(fmt.Errorf("contract for %s is both trusted and verified (first at %s:%d)", name, old.File, old.Line))
+				}
+				cur = old
+			} else {
+				cur = &FuncSpec{Name: name, Pkg: pkgPath, Attrs: map[string]bool{}, Trusted: trusted, File: path, Line: ln}
+				db.Funcs[name] = cur
 			}
-			db.Funcs[name] = cur
 		case "requires", "ensures":
 			if cur == nil {
 				return fail(fmt.Errorf("clause outside func"))
@@ -214,6 +230,33 @@ func (db *SpecDB) LoadFile(path string, pkgPath string, trusted bool) error {
 		case "type":
 			// type T guards f1, f2 by mu [rw]
 			parts := strings.Fields(strings.ReplaceAll(rest, ",", " "))
+			if len(parts) == 5 && parts[1] == "lock" && parts[3] == "sets" {
+				db.LockSets = append(db.LockSets, &LockSet{Type: qualifyTypeName(parts[0], pkgPath), Mu: parts[2], Ghost: parts[4]})
+				cur = nil
+				return nil
+			}
+			if len(parts) >= 2 && parts[1] == "protects" {
+				// type T protects f1, f2 reads <expr> writes <expr>
+				ri := strings.Index(rest, " reads ")
+				wi := strings.Index(rest, " writes ")
+				if ri < 0 || wi < ri {
+					return fail(fmt.Errorf("protects needs reads <expr> writes <expr>"))
+				}
+				head := strings.Fields(strings.ReplaceAll(rest[:ri], ",", " "))
+				g := &GuardSpec{Type: qualifyTypeName(head[0], pkgPath), Fields: head[2:], Pkg: pkgPath}
+				var err error
+				g.ReadSrc = strings.TrimSpace(rest[ri+7 : wi])
+				g.WriteSrc = strings.TrimSpace(rest[wi+8:])
+				if g.Read, err = ParseExpr(g.ReadSrc); err != nil {
+					return fail(err)
+				}
+				if g.Write, err = ParseExpr(g.WriteSrc); err != nil {
+					return fail(err)
+				}
+				db.Guards = append(db.Guards, g)
+				cur = nil
+				return nil
+			}
 			if len(parts) < 5 || parts[1] != "guards" {
 				return fail(fmt.Errorf("bad type clause"))
 			}
@@ -226,8 +269,13 @@ func (db *SpecDB) LoadFile(path string, pkgPath string, trusted bool) error {
 				return fail(fmt.Errorf("bad type clause: missing by"))
 			}
 			g.Mu = parts[i+1]
-			if i+2 < len(parts) && parts[i+2] == "rw" {
-				g.RW = true
+			for k := i + 2; k < len(parts); k++ {
+				if parts[k] == "rw" {
+					g.RW = true
+				}
+				if parts[k] == "also" && k+1 < len(parts) {
+					g.Also = parts[k+1]
+				}
 			}
 			db.Guards = append(db.Guards, g)
 			cur = nil
